@@ -1,10 +1,25 @@
-import OrdModel.Proofs.IndexInsloc
+import OrdModel.Proofs.IndexInslocExample
 /-!
 # C04 — Inscriptions are never duplicated or dropped
 
 Property theorems only.  Model: `OrdModel/Index/{Inscriptions,Block}.lean`; derived definitions
 and the executable oracle: `OrdModel/Index/OracleInsloc.lean`; lemmas:
 `OrdModel/Proofs/IndexInsloc*.lean`.
+
+What is proved here is the invariant's **oracle form** (the predicate evaluated on the
+implementation's dump after every block is exactly `InsPartitioned`) and its **per-transaction
+preservation step** for `index_inscriptions` at full strength (any inputs, any envelopes, any
+flotsam, coinbase or not).  The lift to every reachable state
+
+    theorem c04_reachable (cfg blocks st) (hvalid : ValidChain cfg blocks)
+        (h : run cfg blocks = .ok st) :
+        InsPartitioned cfg st ∧ st.entries.length = (blocks.map blockEnvelopes).sum
+
+is NOT proved: it additionally needs (i) `takeInputEntries` moves the spent entries' lists out of
+cache/table unchanged, (ii) the cache insertion of the new outputs does not overwrite an entry
+(hypothesis: no duplicate txid of an unspent inscribed output, BIP-30), (iii) `flushCache` /
+`UtxoEntry.merged` concatenate, and rebuild `seq2sp` consistently, (iv) every block starts with
+a coinbase (so the saved flotsam is flushed: `c04_coinbase_flushes_saved`).
 -/
 namespace Ord.Index.Insloc
 open Ord Ord.Index
@@ -13,5 +28,80 @@ open Ord Ord.Index
 (`ix.oracle.inspartition`) is exactly the C04 invariant. -/
 theorem c04_oracle_sound (cfg : Cfg) (st : State) :
     insPartitionedB cfg st = true ↔ InsPartitioned cfg st := insPartitionedB_iff cfg st
+
+/-- One call of `update_inscription_location` pushes the inscription's sequence number onto
+exactly one list — an output entry of the transaction, the block's null entry or its unbound
+entry — and changes no other list; a new inscription gets the next sequence number
+`entries.length`, and the entry table grows by exactly that one entry. -/
+theorem c04_push_exactly_once (cfg : Cfg) (height time : Nat) (rs : Option (List (Nat × Nat)))
+    (fl : Flotsam) (sp : SatPoint) (opr : Bool) (tgt : Target) (ls ls' : LocState)
+    (h : updateInscriptionLocation cfg height time rs fl sp opr tgt ls = .ok ls') :
+    (located ls'.outs ls'.ctx).Perm (located ls.outs ls.ctx ++ [flSeq ls.st.entries.length fl]) ∧
+    ls'.st.entries.length = ls.st.entries.length + (if isNew fl then 1 else 0) ∧
+    ls'.st.utxo = ls.st.utxo ∧ ls'.ctx.flotsam = ls.ctx.flotsam :=
+  let s := (uil_spec cfg height time rs fl sp opr tgt ls ls' h).step
+  ⟨s.located, s.entriesLen, s.utxo, s.flotsam⟩
+
+/-- Per-transaction preservation (`index_inscriptions`, any transaction): the sequence numbers
+placed so far, those in the block's saved flotsam and those sitting on the spent inputs are all
+present afterwards, each exactly as often as before, on an output entry / the null entry / the
+unbound entry / the saved flotsam; the new sequence numbers handed out are exactly
+`n, n+1, …` (`n` = number of inscriptions before); and `consumed` counts the envelopes the
+scan turned into inscriptions (numbered now or pending in the saved flotsam). -/
+theorem c04_transaction_conserves (cfg : Cfg) (height time : Nat) (tx : Tx)
+    (inputs : List (TxIn × UtxoEntry)) (rs : Option (List (Nat × Nat))) (ls ls' : LocState)
+    (hok : indexInscriptions cfg height time tx inputs rs ls = .ok ls') :
+    ∃ consumed remaining,
+      tx.envelopes.length = consumed + remaining ∧
+      (located ls'.outs ls'.ctx ++ oldSeqs ls'.ctx.flotsam).Perm
+        (located ls.outs ls.ctx ++ oldSeqs ls.ctx.flotsam ++ inputSeqs inputs ++
+          List.range' ls.st.entries.length (ls'.st.entries.length - ls.st.entries.length)) ∧
+      ls'.st.entries.length + newCount ls'.ctx.flotsam =
+        ls.st.entries.length + newCount ls.ctx.flotsam + consumed ∧
+      (txIsCoinbase tx = true → ls'.ctx.flotsam = []) ∧
+      ls'.st.utxo = ls.st.utxo ∧ ls'.outs.length = ls.outs.length :=
+  indexInscriptions_conserve cfg height time tx inputs rs ls ls' hok
+
+/-- Counting: in a non-coinbase transaction whose parsed envelopes come in input order and name
+existing inputs (`envelopeInputsWF`, checked on every generated transaction by
+`ix.oracle.envwf`), every envelope becomes exactly one inscription. -/
+theorem c04_transaction_counts_envelopes (cfg : Cfg) (height time : Nat) (tx : Tx)
+    (inputs : List (TxIn × UtxoEntry)) (rs : Option (List (Nat × Nat))) (ls ls' : LocState)
+    (hnn : ∀ p ∈ inputs, p.1.prev.isNull = false)
+    (hwf : envelopeInputsWF inputs.length (tx.envelopes.map (·.input)) = true)
+    (hok : indexInscriptions cfg height time tx inputs rs ls = .ok ls') :
+    ls'.st.entries.length + newCount ls'.ctx.flotsam =
+      ls.st.entries.length + newCount ls.ctx.flotsam + tx.envelopes.length :=
+  indexInscriptions_counts_all cfg height time tx inputs rs ls ls' hnn hwf hok
+
+/-- The coinbase leaves nothing saved: every fee-spent inscription of the block is placed. -/
+theorem c04_coinbase_flushes_saved (cfg : Cfg) (height time : Nat) (tx : Tx)
+    (inputs : List (TxIn × UtxoEntry)) (rs : Option (List (Nat × Nat))) (ls ls' : LocState)
+    (hcb : txIsCoinbase tx = true)
+    (hok : indexInscriptions cfg height time tx inputs rs ls = .ok ls') :
+    ls'.ctx.flotsam = [] := by
+  obtain ⟨_, _, _, _, _, h, _⟩ := indexInscriptions_conserve cfg height time tx inputs rs ls ls' hok
+  exact h hcb
+
+/-- Offsets on real outputs are below the output's value: whatever the output loop assigns to
+output `j` has an offset inside that output's value interval, and is listed at the offset
+relative to the output's start. -/
+theorem c04_offset_below_value (txid : Txid) (outs : List TxOut) (fls : List Flotsam)
+    (x : SatPoint × Flotsam × Bool)
+    (hx : x ∈ (assignOutputs txid outs 0 0 (sortByKey (·.offset) fls) []).1) :
+    ∃ j o, outs[j]? = some o ∧ x.1.outpoint = ⟨txid, j⟩ ∧ x.1.offset < o.value := by
+  obtain ⟨h, _⟩ := assignOutputs_place txid outs 0 0 (sortByKey (·.offset) fls) []
+    (sortByKey_sorted _ _) (fun _ _ => Nat.zero_le _)
+  rcases h x hx with hacc | ⟨j, o, hj, _, hlo, hhi, hsp, _⟩
+  · simp at hacc
+  · refine ⟨j, o, hj, by rw [hsp]; simp, ?_⟩
+    rw [hsp]; simp only; omega
+
+/-- Non-vacuity: a concrete transaction (one inscribed input, one envelope, an OP_RETURN output,
+a fee) is indexed successfully by the model, so the hypotheses `… = .ok ls'` above are
+satisfiable, with the expected lists. -/
+example : exResult.isOk = true ∧ exCheck = true := ⟨exResult_ok, exCheck_true⟩
+
+example : envelopeInputsWF 2 [0, 0, 1] = true ∧ envelopeInputsWF 2 [1, 0] = false := by decide
 
 end Ord.Index.Insloc
